@@ -12,7 +12,8 @@ RULE = ("twin worlds from the same pre-state: world A evaluates call_batch(kwarg
         "map_over_range over a generated call tree's root (nested, failing and repeated sub-calls beneath each element), "
         "world B evaluates the same elements one by one in order, catching exceptions; batches of length 0-8 with duplicates, "
         "failing elements, a drawn subset memoized beforehand, partial-application prefix for two-parameter roots, cache "
-        "on/off, optional restart before the batch; non-trivial = batch length >= 2; distinct = event-log digest")
+        "on/off, optional restart before the batch; roots with a defaulted third parameter get sibling partials derived from the "
+        "keyword prefix before the batch and an element-wise world that may call the root directly with all arguments; non-trivial = batch length >= 2; distinct = event-log digest")
 ASSUMPTIONS = ["exceptions are compared by class and original message", "stores are compared as sets of (qualified name, argument hash, result type, value, invocation list)"]
 COMPONENTS = {"real": ["call_batch / map_over_range, LocalRunnerBackend.batch_run, runner, storage backends", "fork lifetimes"],
               "stub": ["generated program", "uuid4, clock"]}
